@@ -451,3 +451,24 @@ func writeIfChanged(path string, content string) bool {
 	}
 	return true
 }
+
+// recvAssigns lists, in source order, every assignment in fd whose left side is a field of the receiver or
+// parameter named recv, as "<lhs>=<rhs>" with both sides printed as written.
+func recvAssigns(fd *ast.FuncDecl, recv string) []string {
+	var r []string
+	ast.Inspect(fd.Body, func(n ast.Node) bool {
+		as, ok := n.(*ast.AssignStmt)
+		if !ok || len(as.Lhs) != len(as.Rhs) {
+			return true
+		}
+		for i, l := range as.Lhs {
+			if sel, ok := l.(*ast.SelectorExpr); ok {
+				if id, ok := sel.X.(*ast.Ident); ok && id.Name == recv {
+					r = append(r, types.ExprString(l)+"="+types.ExprString(as.Rhs[i]))
+				}
+			}
+		}
+		return true
+	})
+	return r
+}
